@@ -441,3 +441,131 @@ func SortedLines(s string) []string {
 	}
 	return lines
 }
+
+// SimpleRows: every value prints in -o stream_native in a way ParseNativeLine reads back.
+func SimpleRows(rows [][]Val) bool {
+	var ok func(v Val) bool
+	ok = func(v Val) bool {
+		switch v.K {
+		case KStr:
+			for i := 0; i < len(v.S); i++ {
+				c := v.S[i]
+				if !(c >= 'a' && c <= 'z' || c >= 'A' && c <= 'Z' || c >= '0' && c <= '9') {
+					return false
+				}
+			}
+		case KList:
+			for _, e := range v.List {
+				if !ok(e) {
+					return false
+				}
+			}
+		}
+		return true
+	}
+	for _, r := range rows {
+		for _, v := range r {
+			if !ok(v) {
+				return false
+			}
+		}
+	}
+	return true
+}
+
+// ParseNativeLine reads "{+time| v1, v2 |}" / "{-time| ... |}" back (simple values only): +1 / -1 and the values.
+func ParseNativeLine(line string) (int, []Val, error) {
+	if len(line) < 4 || line[0] != '{' || !strings.HasSuffix(line, " |}") {
+		return 0, nil, fmt.Errorf("not a record line")
+	}
+	sign := 1
+	switch line[1] {
+	case '+':
+	case '-':
+		sign = -1
+	default:
+		return 0, nil, fmt.Errorf("no +/- flag")
+	}
+	bar := strings.Index(line, "| ")
+	if bar < 0 {
+		return 0, nil, fmt.Errorf("no '| '")
+	}
+	body := line[bar+2 : len(line)-3]
+	p := &nparser{s: body}
+	vals, err := p.seq(0)
+	if err != nil {
+		return 0, nil, err
+	}
+	if p.i != len(p.s) {
+		return 0, nil, fmt.Errorf("trailing text %q", p.s[p.i:])
+	}
+	return sign, vals, nil
+}
+
+type nparser struct {
+	s string
+	i int
+}
+
+func (p *nparser) seq(close byte) ([]Val, error) {
+	var out []Val
+	if p.i >= len(p.s) || (close != 0 && p.s[p.i] == close) {
+		return out, nil
+	}
+	for {
+		v, err := p.val()
+		if err != nil {
+			return nil, err
+		}
+		out = append(out, v)
+		if strings.HasPrefix(p.s[p.i:], ", ") {
+			p.i += 2
+			continue
+		}
+		return out, nil
+	}
+}
+
+func (p *nparser) val() (Val, error) {
+	rest := p.s[p.i:]
+	switch {
+	case strings.HasPrefix(rest, "<null>"):
+		p.i += 6
+		return Null(), nil
+	case strings.HasPrefix(rest, "true"):
+		p.i += 4
+		return Bool(true), nil
+	case strings.HasPrefix(rest, "false"):
+		p.i += 5
+		return Bool(false), nil
+	case strings.HasPrefix(rest, "'"):
+		j := strings.Index(rest[1:], "'")
+		if j < 0 {
+			return Val{}, fmt.Errorf("unterminated string")
+		}
+		p.i += j + 2
+		return Str(rest[1 : j+1]), nil
+	case strings.HasPrefix(rest, "["):
+		p.i++
+		l, err := p.seq(']')
+		if err != nil {
+			return Val{}, err
+		}
+		if p.i >= len(p.s) || p.s[p.i] != ']' {
+			return Val{}, fmt.Errorf("unterminated list")
+		}
+		p.i++
+		return ListOf(l), nil
+	default:
+		j := 0
+		for j < len(rest) && (rest[j] == '-' || rest[j] >= '0' && rest[j] <= '9') {
+			j++
+		}
+		n, err := strconv.ParseInt(rest[:j], 10, 64)
+		if err != nil {
+			return Val{}, fmt.Errorf("unexpected %q", rest)
+		}
+		p.i += j
+		return Int(n), nil
+	}
+}
